@@ -7,7 +7,7 @@ import re
 import common, l3, jsonx
 
 PID = "C15"
-PAIRS = {"eager": "base", "eagern": "n"}
+PAIRS = {"eager": "base", "eagern": "n", "eagerw": "w"}
 GROUP = re.compile(r"IXSCAN\s*\{([^}]*)\}")
 
 
@@ -151,7 +151,8 @@ def judge(byc, res):
 
 
 def cfgs(tier):
-    cs = [l3.Cfg("base"), l3.Cfg("eager", eager=True), l3.Cfg("n", num=True, bool=True), l3.Cfg("eagern", eager=True, num=True, bool=True)]
+    cs = [l3.Cfg("base"), l3.Cfg("eager", eager=True), l3.Cfg("n", num=True, bool=True), l3.Cfg("eagern", eager=True, num=True, bool=True),
+          l3.Cfg("w", ns=True), l3.Cfg("eagerw", eager=True, ns=True)]
     return cs
 
 
